@@ -13,6 +13,11 @@ fn main() {
     if args.is_empty() {
         usage();
     }
+    if args[0] == "--lib-compress" {
+        // helper mode: run bitar's library writer once in a process without any history (see l1::compress_lib_fresh_process)
+        let (Some(job), Some(out)) = (args.get(1), args.get(2)) else { usage() };
+        std::process::exit(bverif::l1::lib_compress_main(std::path::Path::new(job), std::path::Path::new(out)));
+    }
     let id = args[0].clone();
     let mut tier = match std::env::var("VERIF_TIER").as_deref() {
         Ok("thorough") => Tier::Thorough,
